@@ -116,6 +116,9 @@ pub fn run(ctx: &Ctx) -> i32 {
                     }
                 }
             }
+            if rf.engine == "netsim" {
+                return replay_one(ctx, &crate::props::net::NetEngine { prop: d.prop }, &rf);
+            }
             replay_one(ctx, &engine, &rf)
         }) {
             Ok(c) => c,
@@ -165,6 +168,16 @@ pub fn run(ctx: &Ctx) -> i32 {
         ];
         total.merge(run_fuzz_leg(ctx, "fz_pool", "poolsim", Some(d.prop), ctx.cases(0, 40_000), 400, seeds));
     }
+    if d.prop == "C04" {
+        // end to end with the real hyper connections: one HTTP/2 connection per origin
+        let e2e = crate::props::net::NetEngine { prop: "C04" };
+        total.merge(run_generated(ctx, &e2e, "netsim-h2-sharing", || crate::props::net::c04_e2e_strategy(8), ctx.cases(6_000, 300_000), 300));
+    }
+    if d.prop == "C15" {
+        // end to end: connections still open at an HTTP/1 origin after everything completed
+        let e2e = crate::props::net::NetEngine { prop: "C15" };
+        total.merge(run_generated(ctx, &e2e, "netsim-idle-bound", || crate::props::net::c15_e2e_strategy(8), ctx.cases(6_000, 300_000), 300));
+    }
     if d.prop == "C06" {
         total.merge(run_generated(ctx, &engine, "near-miss-origins", move || near_origins_strategy(d.profile, max_ops), ctx.cases(60_000, 1_500_000), 2000));
         total.merge(run_generated(ctx, &engine, "many-origins", move || many_origins_strategy(40), ctx.cases(240, 20_000), 300));
@@ -175,6 +188,8 @@ pub fn run(ctx: &Ctx) -> i32 {
         let ectx = Ctx { threads: 16, ..ctx.clone() };
         total.merge(run_generated(&ectx, &engine, "idle-expiry-real-time", move || case_strategy(wt, 24, cfg_expiry_strategy()), ctx.cases(400, 12_000), 200));
         total.merge(run_generated(&ectx, &engine, "idle-expiry-scenarios", expiry_scenario_strategy, ctx.cases(400, 12_000), 200));
+        // whole-second idle timeouts, 1.15 s real sleeps: few cases, all threads
+        total.merge(run_generated(&ectx, &engine, "idle-expiry-whole-seconds", expiry_whole_second_strategy, ctx.cases(32, 640), 20));
     }
     finish(
         ctx,
